@@ -84,6 +84,7 @@ type Summary struct {
 	Switches     int64               `json:"switches"`
 	Yields       int64               `json:"yields"`
 	Preempts     int64               `json:"preempts"`
+	MapOrders    int64               `json:"map_orders"`
 	SimSeconds   float64             `json:"sim_seconds"`
 	OpsDone      int                 `json:"ops_done"`
 	Fired        map[string]int      `json:"fired"`
@@ -193,6 +194,7 @@ func batch(t *testing.T, job *Job) {
 		sum.Switches += v.Stats.Switches
 		sum.Yields += v.Stats.Yields
 		sum.Preempts += v.Stats.Preempts
+		sum.MapOrders += v.Stats.MapOrders
 		sum.SimSeconds += v.Stats.SimSeconds
 		sum.OpsDone += v.OpsDone
 		for k, n := range v.Fired {
